@@ -175,6 +175,8 @@ pub struct Kernel {
     pub evseq: u64,
     /// descriptors whose Close request was cancelled because its ring was closed first
     pub lost_closes: Vec<i32>,
+    /// pool buffers the program currently holds handles to: (addr, len, id)
+    pub user_held: Vec<(usize, usize, u64)>,
 }
 
 impl Kernel {
@@ -194,6 +196,7 @@ impl Kernel {
             cb_offset_ns: 0,
             evseq: 0,
             lost_closes: Vec::new(),
+            user_held: Vec::new(),
         }
     }
 }
@@ -280,6 +283,16 @@ pub fn zc_released(addr: usize) -> Option<bool> {
         }
         if seen { Some(false) } else { None }
     })
+}
+
+/// The program holds a handle to the pool buffer at `[addr, addr+len)` from now on (C07): the kernel
+/// must not select it for a receive until `user_release(id)`.
+pub fn user_hold(addr: usize, len: usize, id: u64) {
+    with_kernel(|k| k.user_held.push((addr, len, id)));
+}
+
+pub fn user_release(id: u64) {
+    with_kernel(|k| k.user_held.retain(|h| h.2 != id));
 }
 
 /// Number of completions the simulated kernel has posted so far in this run.
